@@ -1,7 +1,9 @@
 // ---- task / message state classification (real code) + the stage oracle of C02
 //@@ extract file=acts/src/scheduler/state.rs item="enum TaskState" name=TaskState
-//@@ opt structural
+//@@ opt structural dropderive=Clone
 //@@ end
+// derive(Clone) on a field-less enum copies the variant (Verus gives derived Clone no spec: stated here, TRUSTED)
+impl Clone for TaskState { #[verifier::external_body] fn clone(&self) -> (r: Self) ensures r == *self { unimplemented!() } }
 //@@ ifndef HAVE_MESSAGE_STATE
 //@@ extract file=acts/src/event/message.rs item="enum MessageState" name=MessageState
 //@@ opt structural
